@@ -81,6 +81,7 @@ static size_t forge(uint8_t *out, int what, int64_t arg, const uint8_t ver[2])
 
 static int evil_seq(Conn *c, int dir, int idx, uint8_t seq[8]);
 
+static int g_ff_done;
 static void inject_after(Conn *c, int dir, int idx)
 {
 	static uint8_t tmp[65536 + 64];
@@ -102,7 +103,11 @@ static void inject_after(Conn *c, int dir, int idx)
 			int sd = (int)f->a, sr = (int)f->b;
 			Pipe *sp = &c->pipe[sd];
 			if (sr >= 0 && sr < sp->nrecs && sr < MAX_REC && sp->recs[sr].off + sp->recs[sr].len <= sp->sent_len) {
-				if (f->c >= 8 && f->c <= 63 && sd == dir && !sp->recs[sr].in_hs && g_ep[0].conn && g_ep[1].conn) {
+				if (f->c >= 8 && f->c <= 63 && sd == dir && !sp->recs[sr].in_hs && g_ep[0].conn && g_ep[1].conn && !g_ff_done) {
+					/* at most once per run, and only forwards: evil_seq() counts records and knows nothing of an
+					 * earlier fast-forward, and a counter moved BACK to a value already used would make the harness,
+					 * not the library, accept an old record (seen with a two-fault plan of the thorough tier) */
+					g_ff_done = 1;
 					/* long-lived connection: pretend that exactly 2^c records have been exchanged since the
 					 * replayed one was sent, by advancing the counters of both endpoints by the same amount */
 					uint8_t sq[8]; uint64_t S = 0, E = 0;
@@ -284,7 +289,7 @@ static int mitm_release_held(void)
 
 static void mitm_begin(const Plan *p)
 {
-	g_mp = p;
+	g_mp = p; g_ff_done = 0;
 	memset(g_frt, 0, sizeof(g_frt));
 	g_held.active = 0;
 	memset(g_lastver, 3, sizeof(g_lastver));
